@@ -30,7 +30,8 @@ use std::str::FromStr;
 use rayon::prelude::*;
 use rpki::resources::addr::{MaxLenPrefix, Prefix};
 use rpki::resources::asn::{Asn, SmallAsnSet};
-use rpki::rtr::payload::RouteOrigin;
+use rpki::rtr::payload::{Payload, PayloadRef, PayloadType, RouteOrigin};
+use bcder::encode::Values as _;
 use rpki_verif::engine::enumerate::{seq_at, seq_count};
 use rpki_verif::{guard, Ctx};
 use serde_json::json;
@@ -142,7 +143,47 @@ fn model_prefix_text(t: &str) -> Option<(bool, u128, u8)> {
     Some((v4, bits, lenient_uint(l, 255)? as u8))
 }
 
-// --------------------------------------------------------------------- main
+
+// ------------------------------------------------ serde spellings of an ASN
+
+fn json_of(f: impl FnOnce(&mut serde_json::Serializer<&mut Vec<u8>>) -> Result<(), serde_json::Error>) -> Result<String, String> {
+    let mut buf = Vec::new();
+    { let mut s = serde_json::Serializer::new(&mut buf); f(&mut s).map_err(|e| e.to_string())?; }
+    String::from_utf8(buf).map_err(|e| e.to_string())
+}
+/// Runs one of the three `deserialize_from_*` helpers (0 = u32, 1 = str, 2 = any) over a complete JSON text.
+fn asn_from_json(json: &str, which: u8) -> Option<Asn> {
+    let mut de = serde_json::Deserializer::from_str(json);
+    let r = match which { 0 => Asn::deserialize_from_u32(&mut de), 1 => Asn::deserialize_from_str(&mut de), _ => Asn::deserialize_from_any(&mut de) }.ok()?;
+    de.end().ok()?;
+    Some(r)
+}
+/// Every serde spelling of one ASN against its siblings (Display, FromStr, the derived impl, plain u32).
+fn asn_serde_sweep(a: Asn) -> Result<(), String> {
+    let v = a.into_u32();
+    let j_u32 = json_of(|s| a.serialize_as_u32(s))?; let j_bare = json_of(|s| a.serialize_as_bare_str(s))?; let j_str = json_of(|s| a.serialize_as_str(s))?;
+    let derived = serde_json::to_string(&a).map_err(|e| e.to_string())?;
+    if j_u32 != derived || j_u32 != serde_json::to_string(&v).unwrap() { return Err(format!("serialize_as_u32 gives {j_u32}, derived Serialize {derived}")) }
+    if j_str != serde_json::to_string(&a.to_string()).unwrap() { return Err(format!("serialize_as_str gives {j_str}, Display is {a}")) }
+    if j_bare != serde_json::to_string(&a.to_string()[2..]).unwrap() { return Err(format!("serialize_as_bare_str gives {j_bare}, Display is {a}")) }
+    for (json, which, name) in [(&j_u32, 0u8, "deserialize_from_u32(serialize_as_u32)"), (&j_str, 1, "deserialize_from_str(serialize_as_str)"), (&j_bare, 1, "deserialize_from_str(serialize_as_bare_str)"),
+                                (&j_u32, 2, "deserialize_from_any(serialize_as_u32)"), (&j_str, 2, "deserialize_from_any(serialize_as_str)"), (&j_bare, 2, "deserialize_from_any(serialize_as_bare_str)")] {
+        if asn_from_json(json, which) != Some(a) { return Err(format!("{name}: {json} gives {:?}", asn_from_json(json, which))) }
+    }
+    if serde_json::from_str::<Asn>(&derived).ok() != Some(a) { return Err(format!("derived Deserialize of {derived}")) }
+    // the same through serde_json::Value (other Serializer / Deserializer implementations)
+    let val_u32 = a.serialize_as_u32(serde_json::value::Serializer).map_err(|e| e.to_string())?;
+    let val_str = a.serialize_as_str(serde_json::value::Serializer).map_err(|e| e.to_string())?;
+    let val_bare = a.serialize_as_bare_str(serde_json::value::Serializer).map_err(|e| e.to_string())?;
+    if val_u32 != serde_json::Value::from(v) || val_str != serde_json::Value::String(a.to_string()) || val_bare != serde_json::Value::String(v.to_string()) { return Err("serialize_as_* into serde_json::Value".into()) }
+    if Asn::deserialize_from_u32(val_u32.clone()).ok() != Some(a) || Asn::deserialize_from_any(val_u32).ok() != Some(a)
+        || Asn::deserialize_from_str(val_str.clone()).ok() != Some(a) || Asn::deserialize_from_any(val_str).ok() != Some(a)
+        || Asn::deserialize_from_str(val_bare.clone()).ok() != Some(a) || Asn::deserialize_from_any(val_bare).ok() != Some(a) { return Err("deserialize_from_* out of serde_json::Value".into()) }
+    Ok(())
+}
+
+// ---------------------------------------------------------------------- main
+
 
 fn main() {
     let t0 = std::time::Instant::now();
@@ -279,7 +320,7 @@ fn main() {
 
     // ------------------------------------------------------- 3. text.deviations
     let sp = ctx.space("text.deviations",
-        "rendered prefixes / max-len prefixes / ASNs with every single-character deletion, replacement and insertion over a 16-character alphabet (thorough: every pair of such deviations), plus every numeric spelling n, +n, 0n, 00n, -n, ' n', 'n ' (n = 0..=300) of the length and max-len fields; each text offered to Prefix::from_str, Prefix::from_str_relaxed, MaxLenPrefix::from_str, Asn::from_str; accepted values must satisfy the construction invariants, equal the most liberal integer reading of the text and survive Display->FromStr; non-trivial = distinct texts accepted by at least one entry point");
+        "rendered prefixes / max-len prefixes / ASNs with every single-character deletion, replacement and insertion over a 16-character alphabet (thorough: every pair of such deviations), plus every numeric spelling n, +n, 0n, 00n, -n, ' n', 'n ' (n = 0..=300) of the length and max-len fields; each text offered to Prefix::from_str, Prefix::from_str_relaxed, MaxLenPrefix::from_str, Asn::from_str and (as a JSON string) to Asn::deserialize_from_str / deserialize_from_any, which must agree with Asn::from_str; accepted values must satisfy the construction invariants, equal the most liberal integer reading of the text and survive Display->FromStr; non-trivial = distinct texts accepted by at least one entry point");
     {
         let seeds: Vec<&str> = vec!["10.0.0.0/8", "0.0.0.0/0", "255.255.255.255/32", "192.168.0.0/16", "1.2.3.4/24", "::/0", "2001:db8::/32",
             "ffff:ffff:ffff:ffff:ffff:ffff:ffff:ffff/128", "::ffff:0:0/96", "10.0.0.0/8-24", "10.0.0.0/8-8", "10.0.0.0/8-32", "2001:db8::/32-48",
@@ -354,6 +395,17 @@ fn main() {
                     bump(oc, if a.to_string() == t { "asn-accepted-canonical" } else { "asn-accepted-other-spelling" });
                 }
             }
+            // serde string spellings are siblings of FromStr: same verdict, same value
+            fl.check("C13.asn.serde.fromstr", &wit, || {
+                let want = Asn::from_str(t).ok();
+                let json = serde_json::to_string(t).map_err(|e| e.to_string())?;
+                for (which, name) in [(1u8, "deserialize_from_str"), (2, "deserialize_from_any")] {
+                    let got = asn_from_json(&json, which);
+                    if got != want { return Err(format!("{name} gives {got:?}, FromStr gives {want:?}")) }
+                }
+                if Asn::deserialize_from_str(serde_json::Value::String(t.to_string())).ok() != want { return Err("deserialize_from_str out of a serde_json::Value differs from FromStr".into()) }
+                Ok(())
+            });
             any
         };
         // level 1 (+ level 2 in thorough), per seed in parallel over first-level deviations
@@ -367,7 +419,7 @@ fn main() {
                 if thorough { for d2 in deviate(d) { run(&d2, &mut fl, &mut oc) } }
                 (fl, oc, n, acc)
             }).collect();
-            for (fl, oc, n, acc) in res { fl.flush(&ctx); sp.merge_outcomes(&oc); sp.evals(4 * n); accepted_all.extend(acc) }
+            for (fl, oc, n, acc) in res { fl.flush(&ctx); sp.merge_outcomes(&oc); sp.evals(7 * n); accepted_all.extend(acc) }
         }
         // numeric spellings of the length / max-len fields
         let addrs = ["10.0.0.0", "0.0.0.0", "255.255.255.255", "128.0.0.0", "::", "2001:db8::", "ffff::", "ffff:ffff:ffff:ffff:ffff:ffff:ffff:ffff"];
@@ -384,7 +436,7 @@ fn main() {
             let any = probe(&mut fl, &mut oc, t);
             (fl, oc, if any { Some(t.clone()) } else { None })
         }).collect();
-        for (fl, oc, acc) in res { fl.flush(&ctx); sp.merge_outcomes(&oc); sp.evals(4); if let Some(t) = acc { accepted_all.insert(t); } }
+        for (fl, oc, acc) in res { fl.flush(&ctx); sp.merge_outcomes(&oc); sp.evals(7); if let Some(t) = acc { accepted_all.insert(t); } }
         sp.nontrivial(accepted_all.len() as u64);
         sp.set("seeds", json!(seeds)); sp.set("numeric_spellings", json!(texts.len()));
         let lenient: Vec<&String> = accepted_all.iter().filter(|t| t.contains("/+") || t.contains("-+") || t.contains("/00") || t.contains("-00")).take(8).collect();
@@ -529,7 +581,7 @@ fn main() {
     let mut ros: Vec<(usize, u8, u32, RouteOrigin)> = Vec::new();   // (index into mls, resolved max len, asn, value)
     for (k, (_, m, o, v)) in mls.iter().enumerate() { for &a in &asns { ros.push((k, o.unwrap_or(m.len), a, RouteOrigin::new(*v, Asn::from_u32(a)))) } }
     let sp = ctx.space("origin.relations",
-        "all ordered pairs and triples of route origins (every max-len prefix of the previous space x boundary ASNs): == <=> same (prefix, effective max-len, ASN); cmp is the lexicographic order of (Prefix::cmp, effective max-len, ASN), Equal <=> ==, == implies equal hash, antisymmetric, transitive; non-trivial = pairs of different constructions (None vs Some(len)) that are equal + pairs differing only in max-len or only in ASN + strict chains");
+        "all ordered pairs and triples of route origins (every max-len prefix of the previous space x boundary ASNs): == <=> same (prefix, effective max-len, ASN); cmp is the lexicographic order of (Prefix::cmp, effective max-len, ASN), Equal <=> ==, == implies equal hash, antisymmetric, transitive; is_v4 and the Payload / PayloadRef wrappers (origin, From, payload_type, to_origin, as_ref; their cmp / == / hash) agree with the origin inside; non-trivial = pairs of different constructions (None vs Some(len)) that are equal + pairs differing only in max-len or only in ASN + strict chains");
     {
         let n = ros.len();
         let cm: Vec<i8> = (0..n * n).into_par_iter().map(|k| match guard(|| ros[k / n].3.cmp(&ros[k % n].3)) {
@@ -539,6 +591,16 @@ fn main() {
         batched(&ctx, n, 2048, |i, fl| {
             let ra = &ros[i]; let ma = mls[ra.0].1;
             let (mut c_l, mut c_e, mut c_g, mut nt, mut tri, mut c_alias) = (0u64, 0u64, 0u64, 0u64, 0u64, 0u64);
+            let pa = Payload::from(ra.3);
+            fl.check("C13.origin.accessors", &|| format!("a=[{}]", show(ra)), || {
+                if ra.3.is_v4() != ma.v4 || ra.3.is_v4() != ra.3.prefix.prefix().is_v4() { return Err(format!("is_v4() = {}", ra.3.is_v4())) }
+                let built = Payload::origin(mls[ra.0].3, Asn::from_u32(ra.2));
+                if built != pa || pa.payload_type() != PayloadType::Origin || built.payload_type() != PayloadType::Origin { return Err("Payload::origin / From<RouteOrigin> / payload_type".into()) }
+                match pa.to_origin() { Some(o) if o.prefix == mls[ra.0].3 && o.asn == Asn::from_u32(ra.2) && o == ra.3 => {}, other => return Err(format!("to_origin() = {other:?}")) }
+                if pa.as_router_key().is_some() || pa.as_aspa().is_some() { return Err("an origin payload claims to be a router key / ASPA".into()) }
+                if pa.as_ref() != PayloadRef::Origin(ra.3) || PayloadRef::from(ra.3) != pa.as_ref() || PayloadRef::from(&ra.3) != pa.as_ref() { return Err("as_ref() / PayloadRef::from".into()) }
+                Ok(())
+            });
             for j in 0..n {
                 let rb = &ros[j]; let mb = mls[rb.0].1;
                 let wit = || format!("a=[{}] b=[{}]", show(ra), show(rb));
@@ -556,6 +618,14 @@ fn main() {
                 let (pi, pj) = (mls[ra.0].0, mls[rb.0].0);
                 let want = match cmpm[pi * dom.len() + pj] { 0 => match ra.1.cmp(&rb.1) { Ordering::Equal => ra.2.cmp(&rb.2) as i8, o => o as i8 }, o => o };
                 if want != 2 && c != want { fl.fail("C13.origin.cmp.key", &wit, || format!("cmp = {c}, lexicographic (prefix, effective max-len, ASN) gives {want}")) }
+                // the payload wrappers order, compare and hash exactly like the origins inside
+                fl.check("C13.origin.payload", &wit, || {
+                    let pb = Payload::from(rb.3);
+                    if (pa.cmp(&pb) as i8) != c || pa.partial_cmp(&pb).map(|x| x as i8) != Some(c) || (pa.as_ref().cmp(&pb.as_ref()) as i8) != c { return Err(format!("Payload / PayloadRef cmp differs from RouteOrigin cmp {c}")) }
+                    if (pa == pb) != eq || (pa.as_ref() == pb.as_ref()) != eq { return Err(format!("Payload / PayloadRef == differs from RouteOrigin == ({eq})")) }
+                    if eq && (h(&pa) != h(&pb) || h(&pa.as_ref()) != h(&pb.as_ref())) { return Err("equal payloads hash differently".into()) }
+                    Ok(())
+                });
                 match c { -1 => c_l += 1, 0 => c_e += 1, _ => c_g += 1 }
                 if i != j && eq { c_alias += 1; nt += 1 }
                 if ma == mb && !eq && (ra.1 == rb.1 || ra.2 == rb.2) { nt += 1 }
@@ -583,7 +653,7 @@ fn main() {
 
     // ------------------------------------------------------------- 7. asn.text
     let sp = ctx.space("asn.text",
-        "Display -> FromStr for ASNs: every value below 2^20, every value within 4096 of a power of two or of u32::MAX, and every 65537th value of the whole range; spellings AS<n>, as<n>, <n>; non-trivial = every value (each is distinct)");
+        "Display -> FromStr and every serde spelling (serialize_as_u32 / as_bare_str / as_str, deserialize_from_u32 / from_str / from_any, derived impls; through serde_json text and serde_json::Value) for ASNs: every value below 2^20, every value within 4096 of a power of two or of u32::MAX, and every 65537th value of the whole range; spellings AS<n>, as<n>, <n>; non-trivial = every value (each is distinct)");
     {
         let mut vals: BTreeSet<u32> = (0..(1u32 << 20)).collect();
         for b in 0..32u32 { let c = 1u64 << b; for d in 0..4096u64 { for x in [c + d, c.saturating_sub(d)] { if x <= u32::MAX as u64 { vals.insert(x as u32); } } } }
@@ -599,11 +669,24 @@ fn main() {
                     match Asn::from_str(&text) { Ok(b) if b == a && b.into_u32() == v => {}, other => return Some((v, format!("{text:?} parses to {other:?}"))) }
                 }
                 if u32::from(Asn::from(v)) != v || a.to_raw() != v.to_be_bytes() { return Some((v, "u32 conversions".into())) }
+                match guard(|| asn_serde_sweep(a)) { Ok(Ok(())) => {}, Ok(Err(e)) | Err(e) => return Some((v, format!("serde spelling: {e}"))) }
             }
             None
         }).collect();
-        for b in bad.into_iter().flatten() { ctx.fail("C13.asn.text.roundtrip", format!("asn={}", b.0), b.1) }
-        sp.evals(vals.len() as u64 * 3); sp.nontrivial(vals.len() as u64);
+        for b in bad.into_iter().flatten() { ctx.fail(if b.1.starts_with("serde") { "C13.asn.serde.roundtrip" } else { "C13.asn.text.roundtrip" }, format!("asn={}", b.0), b.1) }
+        sp.evals(vals.len() as u64 * (3 + 16)); sp.nontrivial(vals.len() as u64);
+        // JSON literals: deserialize_from_any must agree with deserialize_from_u32 on numbers and with
+        // deserialize_from_str / FromStr on strings
+        for lit in ["0", "1", "-0", "-1", "255", "256", "-128", "32768", "65536", "2147483648", "4294967295", "4294967296", "18446744073709551615",
+                    "18446744073709551616", "-9223372036854775808", "-2147483649", "1.0", "1e3", "null", "true", "[1]", "{}", "\"\"", "\"AS\"", "\"AS1\"", "\"as1\"", "\"1\"", "\"+1\"", "\"AS 1\"", "\"AS4294967296\""] {
+            sp.eval();
+            let any = guard(|| asn_from_json(lit, 2)); let num = guard(|| asn_from_json(lit, 0)); let st = guard(|| asn_from_json(lit, 1));
+            let (Ok(any), Ok(num), Ok(st)) = (any, num, st) else { ctx.fail("C13.asn.serde.any", format!("json={lit}"), "a deserialize_from_* helper panicked"); continue };
+            let sibling = if lit.starts_with('"') { st } else { num };
+            if any != sibling { ctx.fail("C13.asn.serde.any", format!("json={lit}"), format!("deserialize_from_any gives {any:?}, the typed helper gives {sibling:?}")) }
+            if lit.starts_with('"') { let inner = &lit[1..lit.len() - 1]; if st != Asn::from_str(inner).ok() { ctx.fail("C13.asn.serde.fromstr", format!("json={lit}"), format!("deserialize_from_str gives {st:?}, FromStr gives {:?}", Asn::from_str(inner).ok())) } }
+            sp.outcome(if any.is_some() { "json-literal-accepted" } else { "json-literal-rejected" });
+        }
         sp.outcomes_n("round-tripped", vals.len() as u64);
         // texts without a u32 reading (counted; the property does not speak about them
         // unless a value comes out that contradicts the digits)
@@ -620,7 +703,52 @@ fn main() {
             }
         }
         sp.sample_str(|| "AS4294967295 -> Asn(4294967295) -> \"AS4294967295\"".into());
-        sp.done(true, &format!("{} values x 3 spellings", vals.len())); lap(&t0, &sp.name);
+        sp.done(true, &format!("{} values x (3 text spellings + 16 serde conversions) + 30 JSON literals", vals.len())); lap(&t0, &sp.name);
+    }
+
+    // -------------------------------------------------------------- 7b. asn.der
+    let sp = ctx.space("asn.der",
+        "DER INTEGER readers of Asn (take_from, take_opt_from, skip_in, parse_content, skip_content) on every INTEGER content of 0..=2 octets, every content of 3..=6 octets over {00,01,7f,80,ff}, the same under 4 other tags (contents <= 1 octet) and with a length octet one too large: the five readers must agree on accept / reject and on the value, and an accepted value must re-encode (Asn::encode) to the octets it was read from; non-trivial = inputs accepted by take_from");
+    {
+        use bcder::decode::Constructed; use bcder::{Mode, Tag};
+        let mut inputs: Vec<Vec<u8>> = Vec::new();
+        let tlv = |tag: u8, c: &[u8]| { let mut v = vec![tag, c.len() as u8]; v.extend_from_slice(c); v };
+        inputs.push(tlv(2, &[]));
+        for a in 0..=255u8 { inputs.push(tlv(2, &[a])); for b in 0..=255u8 { inputs.push(tlv(2, &[a, b])) } }
+        let oct = [0x00u8, 0x01, 0x7f, 0x80, 0xff];
+        for len in 3..=6u32 { let mut idx = Vec::new(); for i in 0..5u64.pow(len) { let mut k = i; idx.clear(); for _ in 0..len { idx.push(oct[(k % 5) as usize]); k /= 5 } inputs.push(tlv(2, &idx)) } }
+        for tag in [0x03u8, 0x04, 0x0a, 0x22, 0x30] { inputs.push(tlv(tag, &[])); for a in 0..=255u8 { inputs.push(tlv(tag, &[a])) } }
+        for a in [0u8, 1, 0x7f, 0x80, 0xff] { inputs.push(vec![2, 2, a]); inputs.push(vec![2, 0x81, 1, a]) }   // (octets after the value are bcder's business at the top level, not offered)
+        let res: Vec<(Fails, u64, Oc)> = inputs.par_chunks(2048).map(|chunk| {
+            let mut fl = Fails::new(); let mut oc: Oc = BTreeMap::new(); let mut nt = 0u64;
+            for b in chunk {
+                let wit = || format!("hex={}", rpki_verif::hex(b));
+                let obs = guard(|| {
+                    let take = Constructed::decode(b.as_slice(), Mode::Der, |c| Asn::take_from(c)).ok();
+                    let opt = Constructed::decode(b.as_slice(), Mode::Der, |c| Asn::take_opt_from(c)).ok().flatten();
+                    let skip = Constructed::decode(b.as_slice(), Mode::Der, |c| Asn::skip_in(c)).is_ok();
+                    let parse = Constructed::decode(b.as_slice(), Mode::Der, |c| c.take_value_if(Tag::INTEGER, |content| Asn::parse_content(content))).ok();
+                    let skipc = Constructed::decode(b.as_slice(), Mode::Der, |c| c.take_value_if(Tag::INTEGER, |content| Asn::skip_content(content))).is_ok();
+                    let again = take.map(|a| a.encode().to_captured(Mode::Der).as_slice().to_vec());
+                    (take, opt, skip, parse, skipc, again)
+                });
+                match obs {
+                    Err(p) => fl.fail("C13.asn.der.readers", &wit, || p),
+                    Ok((take, opt, skip, parse, skipc, again)) => {
+                        if opt != take || parse != take || skip != take.is_some() || skipc != take.is_some() {
+                            fl.fail("C13.asn.der.readers", &wit, || format!("take_from {take:?}, take_opt_from {opt:?}, parse_content {parse:?}, skip_in accepts: {skip}, skip_content accepts: {skipc}"));
+                        }
+                        if let Some(e) = again { if &e != b { fl.fail("C13.asn.der.readers", &wit, || format!("read as {:?}, which encodes as {}", take, rpki_verif::hex(&e))) } }
+                        if take.is_some() { nt += 1; bump(&mut oc, "accepted") } else { bump(&mut oc, "rejected") }
+                    }
+                }
+            }
+            (fl, nt, oc)
+        }).collect();
+        for (fl, nt, oc) in res { fl.flush(&ctx); sp.nontrivial(nt); sp.merge_outcomes(&oc) }
+        sp.evals(inputs.len() as u64 * 5);
+        sp.sample_str(|| "hex=020500ffffffff : all five readers accept AS4294967295; hex=020100 : AS0; hex=0200, hex=02020001 (non-minimal), hex=0201ff (negative): all reject".into());
+        sp.done(true, &format!("{} encodings x 5 readers", inputs.len())); lap(&t0, &sp.name);
     }
 
     // --------------------------------------------------------- 8. asnset.build
